@@ -57,7 +57,9 @@ ran.append("with the patch: existing tests of %s (demo skipped) -> %s" % (" ".jo
 if rc != 0:
     print(out[-3000:]); raise SystemExit("existing tests fail with the patch")
 d = os.path.join("/verif/seeded", sid)
-os.makedirs(d, exist_ok=True)
+if os.path.exists(d):
+    raise SystemExit("seed id already used: " + sid)
+os.makedirs(d)
 shutil.copy(os.path.join(sd, "patch.diff"), d)
 shutil.copy(os.path.join(wt, demo), os.path.join(d, "demo_test.go"))
 meta["demo_path"] = demo
